@@ -220,8 +220,7 @@ SMS_QUICK = [
     ('concat[orig ab,sms(xx/yyzz first line unmapped, symbolic column)]', CC(O('ab'), SM('xx\nyyzz', ';?AAA', ('o.js',)))),
     ('concat[sms(abcd named,unnamed,named at one original position),rawstr1]', CC(SM('abcd', 'AAAAA,CAAA,CAAAA,C', ('o.js',), (), ('n1',)), RS('!'))),
     ('concat[sms(abc unnamed then named at one original position),rawstr1]', CC(SM('abc', 'AAAA,CAAAA,?AAA', ('o.js',), (), ('n1',)), RS('!'))),
-    ('sms(abcdef/, zero-width mapped segment then an unmapped one at the same column)', SM('abcdef\n', 'AAAA,EAAE,A,EAAE', ('a.js',))),
-    ('sms(abcd, mapped then unmapped at column 0)', SM('abcd', 'AAAA,A,?AAC', ('a.js',))),
+    ('sms(abcdef/, zero-width mapped segment then an unmapped one at the same column)', SM('abcdef\n', 'AAAA,EAAE,A,EAAE', ('a.js',)), ('C08', 'C01', 'C17')),   # two segments at ONE column: 'sorted' (C08) but not the strictly increasing 'consistent' map of C02/C03/C11
     ('concat[sms name foo,sms names foo+bar,sms name foo] (a name announced three times, a new one in between)', CC(SM('a', 'AAAAA', ('o.js',), (), ('foo',)), SM('bc', 'AAAAA,CAA?C', ('o.js',), (), ('foo', 'bar')), SM('d', 'AAAAA', ('o.js',), (), ('foo',)))),
     ('concat[sms 2 sources,sms first source,sms third source,sms first source] (sources announced repeatedly)', CC(SM('a', 'AAAA', ('o.js',)), SM('bc', 'AAAA,CCAA', ('o.js', 'p.js')), SM('d', 'AAAA', ('o.js',)))),
     ('sms(ab, root ending in several slashes)', SM('ab', 'AAAA,CCAA', ('s/a.js', 'b.js'), (), (), 'webpack:///')),
@@ -348,6 +347,7 @@ def sms_jobs(props, wild=False):
     def f(tier, seed):
         jobs = []
         for t in (SMS_WILD if wild else SMS_QUICK):
+            if len(t) > 2 and not (set(props) & set(t[2])): continue       # a shape outside the quantifier of the other properties
             jobs.append(J('tree:' + t[0], 'jobs.streams:tree_job', dict(tree=t[1], props=props), timeout=600))
         if tier == 'thorough' and not wild:
             for t in SMS_THOROUGH:
